@@ -49,6 +49,7 @@ extern long vh_alloc_calls;	/* allocations requested by libvna during the curren
 extern long vh_fault_at;	/* fail the k-th allocation (1-based), 0 = none */
 extern long vh_fault_fired;
 long vh_live_count(void);
+void vh_live_dump(void);
 long vh_live_bytes(void);
 #define LIB(stmt) do { vh_in_lib++; stmt; vh_in_lib--; } while (0)
 
